@@ -41,7 +41,11 @@ def generate(ctx: Ctx, seed_offset=0):
         fam_mem = tlc.check(ctx, 'store/StoreGen', 'store/Gen_StoreMem.cfg', sub=None if ctx.quick else {'D = 3': 'D = 4'})['emitted']
     if ctx.pid == 'C08':
         fam_lookup = tlc.check(ctx, 'store/StoreGen', 'store/Gen_StoreLookup.cfg', sub=None if ctx.quick else {'D = 4': 'D = 5'})['emitted']
-    ctx.extra['family_histories'] = {'in_memory_at_capacity': len(fam_mem), 'lookup_after_open_append': len(fam_lookup)}
+    fam_rej = []
+    if ctx.pid == 'C10':
+        fam_rej = tlc.check(ctx, 'store/StoreGen', 'store/Gen_StoreRej.cfg', sub=None if ctx.quick else {'D = 3': 'D = 4'})['emitted']
+    fam_lookup = fam_lookup + fam_rej
+    ctx.extra['family_histories'] = {'in_memory_at_capacity': len(fam_mem), 'lookup_after_open_append': len(fam_lookup) - len(fam_rej), 'rejections_on_a_new_file': len(fam_rej)}
     return gen['emitted'] + fam_lookup, sim['emitted'], simcap['emitted'] + fam_mem
 
 
